@@ -1491,7 +1491,7 @@ impl ProtocolState {
 
                 // Regardless of ping timeout configuration, if we haven't heard anything by KeepAlive * 1.5, then
                 // close the connection
-                let final_timeout = self.config.ping_timeout.min(Duration::from_secs(server_keep_alive / 2));
+                let final_timeout = self.config.ping_timeout.min(Duration::from_millis(server_keep_alive * 500));
                 self.ping_timeout_timepoint = Some(context.current_time + final_timeout);
 
                 if server_keep_alive > 0 {
